@@ -29,7 +29,8 @@ PROPERTY = "C19"
 LEVEL = "exploration"
 RULE = ("one run = 1..4 generated Intel-HEX images (1..8 data areas across 64 KiB zones, gaps, areas "
         "written out of address order, record lengths 1..255, LF / CRLF) hashed by `signapp hash` in two "
-        "different writings each, embedded by `signapp message` for successive releases (same output path, "
+        "different writings each (one image in four of a multi-image run is an earlier image of the run in "
+        "another writing), embedded by `signapp message` for successive releases (same output path, "
         "fresh paths, console), then signed by `signonetime` (distinct file names or build<i>/app.hex) "
         "twice under two different entropy streams (each run without / with -v / --verbose) "
         "(and once more under the first stream); non-trivial = at least one signature file was written; "
@@ -104,6 +105,10 @@ def run_one(ch, cfg):
     shape = []
     for i in range(nimg):
         areas = hexfile.gen_areas(ch)
+        if i and ch.draw(4, "same-application-again") == 1:
+            # the same application as an earlier image of the run, in another writing (rebuilt, copied
+            # under another name): each image given still gets its own signature file
+            areas = areas_list[ch.draw(i, "same-application.which")]
         eol = ch.pick(["\n", "\r\n"], "eol")
         a = hexfile.write(ch, areas, eol=eol, with_start_record=ch.draw(2, "start-rec") == 1)
         b = hexfile.write(ch, areas, eol=ch.pick(["\n", "\r\n"], "eol2"))
